@@ -343,6 +343,18 @@ def check(ctx):
                     n_verbose += 1
                     sink, what = U.call_is_sink(c)
                     state = short_path(c.path) in ("HashMap::insert", "HashSet::insert", "HashMap::remove", "HashSet::remove", "Vec::clear", "Vec::sort", "Vec::retain")
+                    # ... or, generally, hands out `&mut` to a value that lives outside the verbose-only block (`commands.sort_by(..)` "for the log"
+                    # re-orders what generation receives afterwards); reporters, loggers and formatters are what such a block is for
+                    if not state:
+                        for i_, ty_ in enumerate(c.term.get("arg_tys", [])):
+                            if not ty_.startswith("&mut ") or re.search(r"Formatter|Stdout|Stderr|ProgressReporter|Logger|StdoutLock|dyn std::io::Write|dyn std::fmt::Write", ty_):
+                                continue
+                            L_ = U._base_local(f, c.args[i_]) if i_ < len(c.args) else None
+                            if L_ is None:
+                                continue
+                            outer = L_ <= f.arg_count or any(d_[0] == "arg" or (d_[0] in ("stmt", "call") and d_[1] not in region) for d_ in f.defs.get(L_, []))
+                            if outer:
+                                state = True
                     if mut or sink or state:
                         r4.bad(V(r4.id, fid, "verbose-controls:%s" % short_path(c.best),
                                  "a block that runs only when verbose is set %s (%s)" % ("mutates the filesystem" if mut else "changes program state", c.best), c.file, c.line))
